@@ -179,3 +179,108 @@ class TimedContext(Unit):
         if m.group(3) != "1":
             return "model not quiescent after a complete implementation run: " + summary
         return None
+
+
+class UnsafeLoop(Unit):
+    """thread_unsafe_event_loop on one thread against the UnsafeLoop model.  Model thread ids are the
+    logical actors: 0 = run_until_empty (enter / one iteration / exit), 1+i = start of operation i,
+    n+1+i = request_stop on operation i, 2n+1+k = clock advance by k+1 ms.  The model is instantiated
+    with the initial value of operation_base::next_/prevPtr_ that the driver found in a freshly
+    constructed operation state placed in 0xAB-filled storage ("!links uninit" for the repository as
+    it is, "!links null" once the fields have default initialisers)."""
+    name = "thread_unsafe_event_loop/UnsafeLoop"; driver = "k1_unsafe_loop"; cfg = "shim17"; handler = "unsafeloop"
+    bound = {"quick": 0, "thorough": 0}
+    maxruns = {"quick": 4, "thorough": 4}
+    nrandom = {"quick": 0, "thorough": 0}
+
+    def __init__(self):
+        self.links = {}
+        self.uninit_hits = []     # (prog, decisions-less) programs whose run hit the uninitialised read
+
+    def programs(self, tier):
+        progs = [
+            ("a30,a10,a10", "s0,s1,s2,r", "-"),
+            ("a30,a10,a10,a500", "s0,s1,s2,s3,x3,r", "-"),          # cancel a queued far timer
+            ("a30,a10,a500", "s0,s1,s2,r", "1:x2"),                   # cancel from inside a receiver
+            ("a10,a20", "s0,r", "0:s1"),                              # start from inside a receiver
+            ("t-5,t5,a0", "s0,s1,s2,r", "-"),
+            ("a10,a10,a5", "s0,s1,c7,s2,r", "-"),
+            ("a10", "s0,c20,x0,r", "-"),                              # stop after the due time passed
+            ("a0", "x0,s0,r", "-"),                                   # pre-stopped, zero delay: no link read
+            ("t-5", "x0,s0,r", "-"),                                  # pre-stopped, past due time: no link read
+            ("a20,a10", "s0,s1,x0,x1,r", "-"),
+            ("a10,a10,a10", "s2,s0,s1,r", "-"),                       # ties in start order
+            # pre-stopped with a future due time: the cancel callback reads prevPtr_ (DESIGN section 8, 3)
+            ("a20", "x0,s0,r", "-"),
+            ("a30,a10", "s0,x1,s1,r", "-"),
+            ("t50", "x0,s0,r", "-"),
+        ]
+        if tier != "quick":
+            progs += [
+                ("a5,a5,a5,a5,a5,a5", "s0,s1,s2,s3,s4,s5,x2,x4,r", "-"),
+                ("a40,a30,a20,a10", "s0,s1,s2,s3,r", "3:x0;2:x1"),
+                ("a10,a20,a30", "s0,r,s1,c100,s2,r", "-"),
+                ("a10,a500", "s0,s1,r", "0:c600"),
+                ("a10,a20", "s0,s1,r", "0:x1/c5"),
+                ("a10,a20", "x1,s0,r", "0:s1"),
+            ]
+        return progs
+
+    def project(self, prog, events):
+        n = len(prog[0].split(","))
+        out = []
+        mnow = NOW0
+        for e in events:
+            m = re.match(r"t(\d+) !(\S+) ?(.*)$", e)
+            if not m:
+                continue
+            act, a = m.group(2), m.group(3).split()
+            if act == "links":
+                self.links[tuple(prog)] = a[0]
+            elif act == "ready":
+                mnow = int(a[0])
+            elif act == "start":
+                out.append((1 + int(a[0]), "start " + a[0]))
+            elif act == "uninit":
+                out.append((1 + int(a[0]), "uninit " + a[0]))
+            elif act == "stop":
+                out.append((n + 1 + int(a[0]), "stop " + a[0]))
+            elif act in ("fire", "done"):
+                out.append((0, "%s %s %s" % (act, a[0], a[1])))
+                mnow = max(mnow, int(a[1]))
+            elif act in ("enter", "exit"):
+                out.append((0, act))
+            elif act == "clock":
+                v = int(a[0])
+                out.append((2 * n + 1 + (v - mnow) - 1, "clock %d" % v))
+                mnow = v
+        return out
+
+    def model_args(self, prog):
+        specs = []
+        for t in prog[0].split(","):
+            specs.append(t if t[0] == "a" else "t%d" % (NOW0 + int(t[1:])))
+        return "%s %d %s" % (self.links.get(tuple(prog), "uninit"), NOW0, ",".join(specs))
+
+    def nontrivial(self, proj):
+        return len(proj) >= 4
+
+    def post_check(self, prog, summary, proj):
+        hit = [e for _, e in proj if e.startswith("uninit")]
+        m = re.search(r"completions=([\d,]*) queue=([\d,]*) crashed=(\d) inloop=(\d)", summary)
+        if not m:
+            return "unparsable model summary: " + summary
+        if hit:
+            self.uninit_hits.append((prog, hit[0]))
+            return None if m.group(3) == "1" else "model did not record the uninitialised read: " + summary
+        if m.group(3) != "0":
+            return "model crashed but the implementation did not: " + summary
+        if prog[1].endswith(",r"):
+            started = set(int(c[1:]) for c in re.findall(r"s\d+", prog[1] + "," + prog[2]))
+            comps = m.group(1).split(",")
+            for i in started:
+                if comps[i] != "1":
+                    return "model: started operation %d not completed exactly once: %s" % (i, summary)
+            if m.group(2) != "" or m.group(4) != "0":
+                return "model: queue not empty / loop still active at the end: " + summary
+        return None
